@@ -389,9 +389,11 @@ def fsqrt_up(v):
     return s
 
 
-def check_gd(D, steps, alpha, c):
-    if len(c) != 2:
-        return f"gradient descent returned {len(c)} coefficients"
+def gd_bounds(D, steps, alpha):
+    """the quantities of the gradient-descent clause: None (no claim: singular data or a step outside the stable
+    range), a string (the oracle's own sanity check failed) or (a, b, mx, q, A, B) with (a, b) the exact optimum,
+    E(e) = e1^2 + 2 mx e1 e2 + q e2^2 the energy, A = tau^(k/2) sqrt E(e_0) the contraction bound and B the rounding
+    floor (see the module docstring)"""
     n = D.n
     Sx, Sy, Sxx = D.S(1), D.R(0), D.S(2)
     Dd = n * Sxx - Sx * Sx
@@ -415,13 +417,8 @@ def check_gd(D, steps, alpha, c):
     tau = 1 - al * mu * (2 - al * L)
     if not (0 <= tau <= 1):
         return f"oracle: contraction factor {float(tau)!r} outside [0,1]"
-
-    def E(e1, e2):
-        return e1 * e1 + 2 * mx * e1 * e2 + q * e2 * e2
-
     e0 = (Sy / n - a, -b)
-    ek = (F(c[0]) - a, F(c[1]) - b)
-    E0, Ek = E(*e0), E(*ek)
+    E0 = e0[0] * e0[0] + 2 * mx * e0[0] * e0[1] + q * e0[1] * e0[1]
     # tau^(k/2), rounded up
     tf = float(tau)
     if tf <= 0.0:
@@ -440,6 +437,18 @@ def check_gd(D, steps, alpha, c):
     st = fsqrt_up(tau)
     damp = F(steps) if st >= 1 else min(F(steps), 1 / (1 - st))
     B = fsqrt_up(L) * (eps * damp + F(101, 100) * (n + 1) * U * Y1) + TINY
+    return a, b, mx, q, A, B, tau, E0
+
+
+def check_gd(D, steps, alpha, c):
+    if len(c) != 2:
+        return f"gradient descent returned {len(c)} coefficients"
+    g = gd_bounds(D, steps, alpha)
+    if g is None or isinstance(g, str):
+        return g
+    a, b, mx, q, A, B, tau, E0 = g
+    ek = (F(c[0]) - a, F(c[1]) - b)
+    Ek = ek[0] * ek[0] + 2 * mx * ek[0] * ek[1] + q * ek[1] * ek[1]
     if Ek > (A + B) ** 2:
         return (f"gradient descent after {steps} steps of size {alpha!r}: energy distance to the optimum "
                 f"sqrt(E) = {math.sqrt(float(Ek))!r} exceeds the contraction bound tau^(k/2) sqrt(E0) + rounding = "
@@ -566,6 +575,216 @@ def _oracle(cmd, t, o):
                         f"(allowed {float(tp + lt[2 + j])!r})")
         return None
     return f"unknown request {cmd}"
+
+
+# ---------------------------------------------------------------------------- correspondence rule
+
+def compare(req, impl, model):
+    """Model and implementation must give the same answer.  Exactly (`default_compare`: bit-equal or 1e-9 relative) in
+    everything that is not a rounded real number: how many coefficients, which accessors are defined, how many
+    predictions, and -- inside the statement's domain -- which calls answer with coefficients, `undef` or `panic`.
+
+    The numbers themselves are fixed by the statement only as far as its clauses go -- the coefficients are "the
+    least-squares optimum" of data whose moment matrix may have condition 1e10, the statistics are "the textbook
+    functions of the returned coefficients" -- and the oracle above turns each clause into a bound with a derived
+    rounding allowance.  Two answers that differ by more than 1e-9 agree when, wherever the oracle judges the numbers
+    (equal lengths, >= 3 points, finite data, no under-/overflow range, a moment matrix that is not exactly singular;
+    for the line fit |D| > 4 dD, for gradient descent a step inside the stable range -- the conditions of `_oracle`),
+      * the coefficients differ by no more than the sum of the two forward-error allowances of the oracle (both lie
+        that close to the exact optimum: `ls_tolerances`; |M^-1| tol of `ne_tolerances`, in which the conditioning
+        enters exactly, so a condition number of 1e10 -- or 1e18, beyond the statement -- widens it by just that;
+        for gradient descent the two rounded trajectories lie within the rounding floor B of the exact one, so
+        sqrt E(difference) <= 2 B), and
+      * each answer's r2, std_err, accessors and predictions are the textbook functions of ITS OWN coefficients
+        (`check_stats`, `check_predict` on the model's answer and on the implementation's).
+    Which calls answer with coefficients, `undef` or `panic` is compared exactly inside the statement's domain
+    (`in_quantifier`: more distinct abscissae than coefficients, exact cond_inf(M) <= 1e10).  Outside it (0..2 points --
+    where std_err = sqrt(SSE/(n-2)) is not defined at all --, mismatched lengths, singular or worse-conditioned systems,
+    the under-/overflow range) the statement says nothing, and whether a coefficient comes out as NaN/inf (`undef`)
+    or as a huge finite number is the value of a number too (0/0 against 0/1e-13 in the closed form), as is whether
+    the elimination meets a pivot below its threshold and the fit panics (x within 1e-9 of 1: a re-associated power sum
+    flips it; the statement does not promise a panic-free fit, the model mirrors the `unwrap`): there the kind of the
+    answer is not compared, and the numbers only where the oracle judges them.  An answer that is none of
+    coefficients / `undef` / `panic` (the harness process died, a time-out) never agrees with anything."""
+    from __main__ import default_compare
+    why = default_compare(req, impl, model)
+    if why is None:
+        return None
+    try:
+        extra = _compare(req.split(), impl.split(), model.split())
+    except (AssertionError, IndexError, ValueError, KeyError, OverflowError, ZeroDivisionError):
+        return why
+    return None if extra is None else why + " (" + extra + ")"
+
+
+def _domain(D, p):
+    """(inside the statement's domain for a fit with p coefficients, the oracle judges returned coefficients,
+    exact inverse of the moment matrix)"""
+    if not D.safe_range(p):
+        return False, False, None
+    M = D.moment(p)
+    Minv = inverse_exact(M)
+    return in_quantifier(D, p, Minv, M), True, Minv
+
+
+def _poly_close(D, Minv, ci, cm, what):
+    if len(ci) != len(cm):
+        return f"{what}: {len(ci)} vs {len(cm)} coefficients"
+    p = len(ci)
+    if None in ci or None in cm:
+        return f"{what}: undefined coefficient"
+    ti = ne_tolerances(D, [F(v) for v in ci])
+    tm = ne_tolerances(D, [F(v) for v in cm])
+    for j in range(p):
+        allowed = sum(abs(Minv[j][k]) * (ti[k] + tm[k]) for k in range(p))
+        if abs(F(ci[j]) - F(cm[j])) > allowed:
+            return (f"{what}: coefficient {j} differs by {abs(ci[j] - cm[j])!r}, more than the two forward-error "
+                    f"allowances together ({float(allowed)!r})")
+    return None
+
+
+def _ls_close(D, ci, cm, what):
+    """None | message | "skip" (the data are singular to working precision: outside the domain)"""
+    if len(ci) != len(cm):
+        return f"{what}: {len(ci)} vs {len(cm)} coefficients"
+    if None in ci or None in cm:
+        return f"{what}: undefined coefficient"
+    t = ls_tolerances(D)
+    if t is None or t[2] is None:
+        return "skip"
+    for j in range(2):
+        if abs(F(ci[j]) - F(cm[j])) > 2 * t[2 + j]:
+            return (f"{what}: coefficient {j} differs by {abs(ci[j] - cm[j])!r}, more than the two forward-error "
+                    f"allowances together ({float(2 * t[2 + j])!r})")
+    return None
+
+
+def _same_structure(fi, fm):
+    if fi["kind"] != fm["kind"]:
+        return f"impl answers `{fi['kind']}`, model `{fm['kind']}`"
+    if fi["kind"] != "coef":
+        return None
+    if len(fi["coef"]) != len(fm["coef"]):
+        return "different number of coefficients"
+    for key in ("int", "slope", "slopes"):
+        a, b = fi[key], fm[key]
+        if (a in ("none", "panic")) or (b in ("none", "panic")):
+            if a != b:
+                return f"{key}: impl {a!r}, model {b!r}"
+        elif isinstance(a, list) != isinstance(b, list) or (isinstance(a, list) and len(a) != len(b)):
+            return f"{key}: different shape"
+    if len(fi["pred"]) != len(fm["pred"]):
+        return "different number of predictions"
+    return None
+
+
+def _compare(t, oi, om):
+    cmd = t[0]
+    if cmd in ("fit_ls", "fit_poly", "fit_gd"):
+        k = 1
+        order = steps = alpha = None
+        if cmd == "fit_poly":
+            order = int(t[1]); k = 2
+        if cmd == "fit_gd":
+            steps = int(t[1]); alpha = fl(t[2]); k = 3
+        x, k = read_vec(t, k)
+        y, k = read_vec(t, k)
+        qs, k = read_vec(t, k)
+        fi, fm = parse_fit(oi), parse_fit(om)
+        if len(x) != len(y) or len(x) < 3 or not finite_data(x, y):
+            return None                  # outside the domain
+        D = Data(x, y)
+        p = {"fit_ls": 2, "fit_gd": 2}.get(cmd, (order or 0) + 1)
+        inside, judged, Minv = _domain(D, p)
+        if inside and fi["kind"] != fm["kind"]:
+            return f"impl answers `{fi['kind']}`, model `{fm['kind']}`"
+        if not judged or fi["kind"] != "coef" or fm["kind"] != "coef":
+            return None
+        f = _same_structure(fi, fm)
+        if f:
+            return f
+        ci, cm = fi["coef"], fm["coef"]
+        if cmd == "fit_poly":
+            if Minv is None:
+                return None
+            f = _poly_close(D, Minv, ci, cm, "polynomial fit")
+        elif cmd == "fit_ls":
+            f = _ls_close(D, ci, cm, "line fit")
+            if f == "skip":
+                return None
+        else:
+            if None in ci or None in cm or len(ci) != 2:
+                return "gradient descent: undefined coefficient"
+            g = gd_bounds(D, steps, alpha)
+            if g is None:
+                return None              # no claim of the statement (unstable step, singular data)
+            if isinstance(g, str):
+                return g
+            a, b, mx, q, A, B, tau, E0 = g
+            d0, d1 = F(ci[0]) - F(cm[0]), F(ci[1]) - F(cm[1])
+            Ed = d0 * d0 + 2 * mx * d0 * d1 + q * d1 * d1
+            f = None
+            if Ed > (2 * B) ** 2:
+                f = (f"gradient descent: the two coefficient pairs are sqrt(E) = {math.sqrt(float(Ed))!r} apart, more than "
+                     f"twice the rounding floor of the iteration ({float(2 * B)!r})")
+        if f:
+            return f
+        for who, fit in (("model", fm), ("impl", fi)):
+            g = check_stats(D, fit) or check_predict(fit["coef"], qs, fit["pred"])
+            if g:
+                return f"{who}: {g}"
+        return None
+    if cmd == "nest":
+        top = int(t[1])
+        x, k = read_vec(t, 2)
+        y, k = read_vec(t, k)
+        pi = pm = 0
+        parts = []
+        for m in range(top + 1):
+            ki, ci, pi = parse_coefs(oi, pi)
+            km, cm, pm = parse_coefs(om, pm)
+            parts.append((m, ki, km, ci, cm))
+        if pi != len(oi) or pm != len(om):
+            return "trailing fields"
+        if len(x) != len(y) or len(x) < 3 or not finite_data(x, y):
+            return None
+        D = Data(x, y)
+        for m, ki, km, ci, cm in parts:
+            inside, judged, Minv = _domain(D, m + 1)
+            if inside and ki != km:
+                return f"order {m}: impl answers `{ki}`, model `{km}`"
+            if judged and ki == "coef" and km == "coef" and Minv is not None:
+                f = _poly_close(D, Minv, ci, cm, f"polynomial fit of order {m}")
+                if f:
+                    return f
+        return None
+    if cmd == "line":
+        x, k = read_vec(t, 1)
+        y, k = read_vec(t, k)
+        k1i, c1i, pi = parse_coefs(oi, 0)
+        k2i, c2i, pi = parse_coefs(oi, pi)
+        k1m, c1m, pm = parse_coefs(om, 0)
+        k2m, c2m, pm = parse_coefs(om, pm)
+        if pi != len(oi) or pm != len(om):
+            return "trailing fields"
+        if len(x) != len(y) or len(x) < 3 or not finite_data(x, y):
+            return None
+        D = Data(x, y)
+        inside, judged, Minv = _domain(D, 2)
+        if inside and (k1i, k2i) != (k1m, k2m):
+            return f"impl answers `{k1i}` `{k2i}`, model `{k1m}` `{k2m}`"
+        if not judged:
+            return None
+        if k1i == "coef" and k1m == "coef":
+            f = _ls_close(D, c1i, c1m, "line fit")
+            if f and f != "skip":
+                return f
+        if k2i == "coef" and k2m == "coef" and Minv is not None:
+            f = _poly_close(D, Minv, c2i, c2m, "order-1 polynomial fit")
+            if f:
+                return f
+        return None
+    return "unknown request"
 
 
 def nontrivial(req, model):
